@@ -689,13 +689,13 @@ func main() {
 	} else {
 		for _, l := range layouts {
 			for _, h := range []string{"plain", "stopstart", "verify"} {
-				for at := 1; at <= 40; at++ {
+				for at := 1; at <= 24; at++ { // the histories make 13-25 storage writes
 					for _, kd := range []string{"entry", "partial", "exit"} {
 						add(kd, at, h, l)
 					}
 				}
-				for i := 0; i < 60; i++ {
-					add("timed", 30+r.Intn(900), h, l)
+				for i := 0; i < 110; i++ {
+					add("timed", 30+r.Intn(700), h, l)
 				}
 				for i := 0; i < 40; i++ {
 					add("strace-pwrite", 1+r.Intn(120), h, l)
